@@ -7,11 +7,15 @@ from engine import common
 common.setup_paths()
 
 props = [json.loads(l) for l in open(os.path.join(HERE, 'properties.jsonl'))]
+PENDING = set(open(os.path.join(HERE, 'pending.txt')).read().split()) \
+    if os.path.exists(os.path.join(HERE, 'pending.txt')) else set()
 checks = []
 na = []
 for p in props:
     pid = p['id']
     hits = glob.glob(os.path.join(HERE, 'checks', pid.lower() + '_*.py'))
+    if pid in PENDING:
+        hits = []
     if not hits:
         na.append({'property_id': pid,
                    'reason': 'check not built yet (work in progress, see DESIGN.md section 4)'})
